@@ -491,6 +491,12 @@ func Generate(t *tape.Tape, p Profile) *App {
 				}
 				inc = u
 			}
+			if p.Croak && p.FlagCount > 0 && len(inc) > 1 && t.Chance(1, 5) {
+				// a CROAK between INCMP lines: reached while input is being read when the earlier lines did not match
+				pos := 1 + t.Int(len(inc)-1)
+				cr := Inst{Op: CROAK, N: userFlag(), M: t.Chance(1, 2)}
+				inc = append(inc[:pos], append([]Inst{cr}, inc[pos:]...)...)
+			}
 			code = append(code, inc...)
 		}
 		nd.Code = code
